@@ -1,19 +1,21 @@
 ------------------------------- MODULE MC_Feed ------------------------------
-(* Bounded instance of Feed: a feed of a few lines of the kinds V (a frame, 5 bytes), S (`;` + newline, 2 bytes) and *)
-(* E (a bare newline), every segmentation, every assignment of short / long gaps.  Each complete schedule is      *)
+(* Bounded instance of Feed: a feed of a few lines of the kinds V (a frame, 5 bytes), S (`;` + newline, 2 bytes),   *)
+(* E (a bare newline) and U (a frame with a stray byte in front of its last byte), every segmentation, every assignment of short / long gaps.  Each complete schedule is      *)
 (* printed as a REPLAY line; the feed is named by the environment variable FEED (e.g. "VSV").                       *)
 EXTENDS Feed, IOUtils, TLC
 
-KindLen(c) == CASE c = "V" -> 5 [] c = "S" -> 2 [] OTHER -> 1
+KindLen(c) == CASE c \in {"V", "U"} -> 5 [] c = "S" -> 2 [] OTHER -> 1
 RECURSIVE Build(_, _, _)
 Build(kinds, i, acc) ==
   IF i > Len(kinds) THEN acc
   ELSE LET n == KindLen(SubSeq(kinds, i, i))
            base == 10 * (i - 1)
-       IN Build(kinds, i + 1, acc \o [j \in 1..n |-> IF j = n THEN base + 10 ELSE base + j])
+           stray == SubSeq(kinds, i, i) = "U"
+       IN Build(kinds, i + 1, acc \o [j \in 1..n |-> IF j = n THEN base + 10 ELSE IF stray /\ j = n - 1 THEN base + 9 ELSE base + j])
 MCStream == Build(IOEnv.FEED, 1, <<>>)
 MCKeep == IOEnv.KEEP = "1"
 MCGuard == IOEnv.GUARD = "1"
+MCText == IOEnv.TEXTBUF = "1"
 MCMaxSegs == atoi(IOEnv.MAXSEGS)
 
 Replay == (Quiescent \/ crashed) => PrintT(<<"REPLAY", sched>>)
